@@ -212,6 +212,30 @@ Definition rel_close (a b : Qc) : bool := Qc_leb (Qc_abs (a - b)) (Q2Qc (1 # 100
                           "s": rng.choice([0.0, 0.0, None, 1e-4, 0.01, 1.0, 100.0]),
                           # the same request made earlier in the object's life, before a change of the abscissae only
                           "history": rng.choice([None, None, "shift_x", "scale_x", "shift_x+scale_y"])})
+        # values on a large baseline (2.5e8 + noise of order 1; 4e7 + noise): the default smoothing condition is n times the variance of
+        # *these* values — single-pass formulas (sum of squares minus squared sum) cancel catastrophically here
+        for _ in range(10 if tier == "quick" else 60):
+            n = rng.randint(8, 20)
+            basev = rng.choice([2.5e8, 4.0e7, -1.0e9])
+            x = gens.sorted_x(rng, n, rng.choice(["uniform", "dyadic", "int"]))
+            y = [basev + math.sin(i / 2.0) + rng.uniform(-1.0, 1.0) for i in range(n)]
+            cases.append({"x": x, "y": y, "kind": "noisy", "scale": None, "entry": rng.choice(["weaver.smooth", "spline_smooth", "weaver.to_function_default"]),
+                          "s": None, "history": None})
+        # abscissae with gaps far below 1e-8 in absolute terms — a whole series on a 2^-30 scale (time in a large unit), and a regular
+        # series with a few extra readings 2^-28 after a regular one: every sample is a sample ("de-duplication" with np.isclose's
+        # absolute tolerance drops them)
+        for _ in range(10 if tier == "quick" else 60):
+            n = rng.randint(9, 14)
+            if rng.random() < 0.5:
+                ks = sorted(rng.sample(range(0, 6 * n), n))
+                x = [k_ * 2.0 ** -30 for k_ in ks]
+            else:
+                base = [float(i) for i in range(n - 3)]
+                extra = [v + 2.0 ** -28 for v in rng.sample(base[1:-1], 3)]
+                x = sorted(base + extra)
+            y = [math.sin(i / 2.0) + rng.uniform(-0.3, 0.3) for i in range(len(x))]
+            cases.append({"x": x, "y": y, "kind": "noisy", "scale": None, "entry": rng.choice(["weaver.smooth", "weaver.to_function", "spline_smooth"]),
+                          "s": rng.choice([0.0, None, 0.01, 1.0]), "history": None})
         return cases
 
     def run(self, c):
